@@ -1971,7 +1971,11 @@ int EGLPNUM_TYPENAME_ILLlib_chgsense (
 			qslp->sense[rowlist[i]] = 'R';
 			EGLPNUM_TYPENAME_EGlpNumZero(qslp->lower[j]);
 			EGLPNUM_TYPENAME_EGlpNumZero(qslp->upper[j]);
+			/* same orientation as a range row made by addrow: rhs <= ax <= rhs+range */
 			EGLPNUM_TYPENAME_EGlpNumOne(A->matval[k]);
+			EGLPNUM_TYPENAME_EGlpNumSign(A->matval[k]);
+			if (qslp->rangeval)
+				EGLPNUM_TYPENAME_EGlpNumZero(qslp->rangeval[rowlist[i]]);
 			break;
 		case 'E':									/* Artificial */
 			qslp->sense[rowlist[i]] = 'E';
